@@ -61,6 +61,16 @@ LMul(r, s) ==
   IN [v |-> <<Lo(z0), AddN(Lo(u1), c0), Lo(u2), Lo(u3), Lo(u4)>>,
       cov |-> (IF NZ(c) THEN {"mul_top_carry"} ELSE {}) \cup (IF NZ(c0) THEN {"mul_r0_carry"} ELSE {})
               \cup (IF NZ(Hi(AddN(Lo(u1), c0))) THEN {"mul_r1_unnormalised"} ELSE {})]
+\* ---- mul_small::<S>: five products by the constant, the same carry chain and tail as Mul
+LMulSmall(f, sc) ==
+  LET S == <<sc % 8192, sc \div 8192>>
+      t0 == MulN(f[1], S)  t1 == MulN(f[2], S)  t2 == MulN(f[3], S)  t3 == MulN(f[4], S)  t4 == MulN(f[5], S)
+      u1 == AddN(t1, Hi(t0))   u2 == AddN(t2, Hi(u1))   u3 == AddN(t3, Hi(u2))   u4 == AddN(t4, Hi(u3))
+      c == Hi(u4)
+      z0 == AddN(Lo(t0), MulN(c, Nineteen))
+      c0 == Hi(z0)
+  IN [v |-> <<Lo(z0), AddN(Lo(u1), c0), Lo(u2), Lo(u3), Lo(u4)>>,
+      cov |-> (IF NZ(c) THEN {"ms_top_carry"} ELSE {}) \cup (IF NZ(c0) THEN {"ms_r0_carry"} ELSE {"ms_no_r0_carry"})]
 \* ---- to_packed
 CarryFull(t) == LET t1 == AddN(t[2], Hi(t[1]))  t2 == AddN(t[3], Hi(t1))  t3 == AddN(t[4], Hi(t2))  t4 == AddN(t[5], Hi(t3))
                 IN << <<AddN(Lo(t[1]), MulN(Hi(t4), Nineteen)), Lo(t1), Lo(t2), Lo(t3), Lo(t4)>>, Hi(t4) >>
@@ -96,6 +106,7 @@ StepLimb(rg, e) ==
        [] e.op = "neg" -> LNeg(a)
        [] e.op = "mul" -> LMul(a, b)
        [] e.op = "square" -> LMul(a, a)
+       [] e.op = "mul_small" -> LMulSmall(a, IF Has(e, "nine") /\ e.nine = 1 THEN 9 ELSE 121666)
        [] e.op = "recanon" -> [v |-> FromBytes64(ToBytes64(a).bytes), cov |-> {}]
        [] OTHER -> [v |-> Z5, cov |-> {"skip"}]
 StepSpec(rg, e) ==
@@ -107,10 +118,11 @@ StepSpec(rg, e) ==
        [] e.op = "neg" -> FNeg(a)
        [] e.op = "mul" -> FMul(a, b)
        [] e.op = "square" -> FSq(a)
+       [] e.op = "mul_small" -> FMulSmall(a, IF Has(e, "nine") /\ e.nine = 1 THEN 9 ELSE 121666)
        [] e.op = "recanon" -> a
        [] OTHER -> FZero
-Modelled(e) == e.op \in {"from_bytes", "add", "sub", "neg", "mul", "square", "recanon"}
-CovNames == <<"add_top_carry", "sub_top_carry", "sub_no_top_carry", "mul_top_carry", "mul_r0_carry", "mul_r1_unnormalised", "pack_pass1_wrap", "pack_pass2_wrap",
+Modelled(e) == e.op \in {"from_bytes", "add", "sub", "neg", "mul", "square", "mul_small", "recanon"}
+CovNames == <<"add_top_carry", "sub_top_carry", "sub_no_top_carry", "mul_top_carry", "mul_r0_carry", "mul_r1_unnormalised", "ms_top_carry", "ms_r0_carry", "ms_no_r0_carry", "pack_pass1_wrap", "pack_pass2_wrap",
               "pack_ge_p", "pack_lt_p">>
 CovSeq(S) == SelectSeq(CovNames, LAMBDA n : n \in S)
 Init == hi \in 1..Len(Rec) /\ l = 1 /\ regs = <<Z5, One5, Z5, One5>> /\ sregs = <<FZero, FOne, FZero, FOne>> /\ ok = TRUE
